@@ -206,6 +206,22 @@ def exit : DrvM Unit := do
   regWrite CONFIGURE (← getD).config
   sleepNs 150000
 
+/-- the variant decision of `__init__`, given FEATURE as read before (`self._features`) and after
+    (`after_toggle`) the ACTIVATE toggle: unequal ⇒ non-plus (re-enable the features if they are now
+    disabled); equal and non-zero ⇒ plus; both 0 ⇒ "disabled" and "enabled, holding 0" look alike:
+    probe with a write of FEATURE -/
+def initVariant (f after : Nat) : DrvM Unit := do
+  if f ≠ after then
+    (if after = 0 then regWrite 0x50 0x73 else pure ())
+  else if after ≠ 0 then modD fun d => { d with isPlus := true }
+  else
+    regWrite TX_FEATURE 5
+    if (← regRead TX_FEATURE) ≠ 0 then
+      regWrite 0x50 0x73
+      let g ← regRead TX_FEATURE
+      modD fun d => { d with isPlus := decide (g ≠ 0) }   -- `bool(self._reg_read(TX_FEATURE))`
+    if (← getD).isPlus = false then regWrite 0x50 0x73
+
 /-- `__init__` (after the SPI object exists); `RuntimeError` if the chip does not answer -/
 def init : DrvM Unit := do
   setCE false
@@ -223,8 +239,7 @@ def init : DrvM Unit := do
   modD fun d => { d with features := f }
   regWrite 0x50 0x73
   let after ← regRead TX_FEATURE
-  if f = after then modD fun d => { d with isPlus := true }
-  else if after = 0 then regWrite 0x50 0x73
+  initVariant f after
   modD fun d => { d with features := 5, pipe0ReadAddr := none }
   let ta ← regReadBytes TX_ADDRESS
   modD fun d => { d with txAddress := ta, retrySetup := 0x5F, rfSetup := 0x07, dynPl := 0x3F,
